@@ -1,7 +1,7 @@
 // Command instrument copies a checkout of the library into a scratch directory and inserts
 // verifhook.Yield calls (a) at the entry of every declared function and method and (b) before and
 // after every simple statement that calls a synchronisation-like method (Lock, Unlock, Load, Store,
-// Get, Put, Do, ...). The C18 check builds against this copy, so that the seeded scheduler can pre-empt
+// Get, Put, Do, ...) or sends / receives on a channel, and before every select. The C18 check builds against this copy, so that the seeded scheduler can pre-empt
 // a task inside code the unchanged library does not have (a new cache, a new lock), not only at the
 // hand-placed hooks. Generated protobuf code, tests and the verifhook package itself are copied as is.
 //
@@ -111,6 +111,12 @@ func callsSync(s ast.Stmt) bool {
 			if sel, ok := x.Fun.(*ast.SelectorExpr); ok && syncNames[sel.Sel.Name] {
 				found = true
 			}
+		case *ast.UnaryExpr:
+			if x.Op == token.ARROW { // channel receive
+				found = true
+			}
+		case *ast.SendStmt:
+			found = true
 		}
 		return !found
 	})
@@ -130,6 +136,8 @@ func (in *inst) stmts(list []ast.Stmt) []ast.Stmt {
 			if callsSync(s) {
 				before = true
 			}
+		case *ast.SelectStmt:
+			before = true
 		}
 		if before {
 			out = append(out, in.yield(s.Pos(), "sync"))
